@@ -15,6 +15,7 @@ Op language (one op per line):
   `l:<int>` an `int64`, `s:<text>`, `b:0|1`, `nil`)
 * `reload <rule>…` — `hotspot.LoadRules(rules)` on top of the rules in force (controllers of equal rules are kept, a
   stat-reusable old rule lends its cells, a used old controller is not lent twice)
+* `reloadres <res> <rule>…` — `hotspot.LoadRulesOfResource(res, rules)` (empty list: the resource loses its rules)
 * `trace <id>` — `api.TraceError(entry, err)`; `exit <id> err` — `entry.Exit(base.WithError(err))`: a business error must
   not change anything about the unit the entry occupies or its release
 * `flowblock <res>` — a flow rule with threshold 0 on `res` (every entry there is blocked by the flow slot)
@@ -107,6 +108,9 @@ def stepModel (s : St) (ts : List String) (_ : String) : St × Option String :=
     | none => (s, some "bad-op")
   | "reload" :: rs => match parseRules? rs with
     | some rules => (reload s rules, none)
+    | none => (s, some "bad-op")
+  | "reloadres" :: res :: rs => match parseRules? rs with
+    | some rules => (reloadRes s res rules, none)
     | none => (s, some "bad-op")
   | ["trace", _] => (s, none)
   | ["exit", id, "err"] => (exit s id, none)
@@ -226,6 +230,20 @@ def checkPhase (s : OSt) (res : String) (as : List Val) (ats : List (String × V
                            over := if j.2.2 && !wasOver then res :: s.over else s.over }
   (s1, j.1, wasOver)
 
+/-- a (re)load on top of the rules in force, as the oracle follows it -/
+def oracleReload (s : OSt) (rules : List Rule) : OSt :=
+  let old := s.rules.map fun o => { o with fresh := false, compat := true }
+  let new := reuseBuild (fun o => o.rule) ORule.inherit (rules.filter Rule.valid) old
+  let ress := (new.map (·.rule.res) ++ s.stale ++ s.over).eraseDups
+  let hasLive (res : String) : Bool := s.live.any (fun e => e.res == res) || s.pend.any (fun p => p.res == res)
+  let concOf (res : String) : List ORule := new.filter fun o => o.rule.res == res && o.rule.conc
+  -- a claim needs cells that mean what the ledger means: with entries alive, every concurrency rule of the resource
+  -- must have kept / inherited its cells from a rule selecting the same argument; damaged cells stay damaged while inherited
+  let stale := ress.filter fun res =>
+    (hasLive res && (concOf res).any (fun o => !o.compat)) || (s.stale.contains res && (concOf res).any (fun o => !o.fresh))
+  let over := ress.filter fun res => s.over.contains res && (concOf res).any (fun o => !o.fresh)
+  { s with rules := new, stale := stale, over := over, pend := s.pend.map fun p => { p with reloaded := true } }
+
 def stepOracle (s : OSt) (ts : List String) (line : String) : OSt × Option String :=
   let res? := resPart line
   let used (id : String) : Bool := s.live.any (fun e => e.id == id) || s.pend.any (fun p => p.id == id)
@@ -236,19 +254,12 @@ def stepOracle (s : OSt) (ts : List String) (line : String) : OSt × Option Stri
                 over := [], stale := (s.live.map (·.res) ++ s.pend.map (·.res)).eraseDups }, none)
     | none => (s, some "bad-op")
   | "reload" :: rs => match parseRules? rs with
+    | some rules => (oracleReload s rules, none)
+    | none => (s, some "bad-op")
+  | "reloadres" :: res :: rs => match parseRules? rs with
     | some rules =>
-      let old := s.rules.map fun o => { o with fresh := false, compat := true }
-      let new := reuseBuild (fun o => o.rule) ORule.inherit (rules.filter Rule.valid) old
-      let ress := (new.map (·.rule.res) ++ s.stale ++ s.over).eraseDups
-      let hasLive (res : String) : Bool := s.live.any (fun e => e.res == res) || s.pend.any (fun p => p.res == res)
-      let concOf (res : String) : List ORule := new.filter fun o => o.rule.res == res && o.rule.conc
-      -- a claim needs cells that mean what the ledger means: with entries alive, every concurrency rule of the resource
-      -- must have kept / inherited its cells from a rule selecting the same argument; damaged cells stay damaged while inherited
-      let stale := ress.filter fun res =>
-        (hasLive res && (concOf res).any (fun o => !o.compat)) || (s.stale.contains res && (concOf res).any (fun o => !o.fresh))
-      let over := ress.filter fun res => s.over.contains res && (concOf res).any (fun o => !o.fresh)
-      ({ s with rules := new, stale := stale, over := over,
-                pend := s.pend.map fun p => { p with reloaded := true } }, none)
+      -- the rules of the other resources are re-loaded as they are (their controllers are kept: equal rules)
+      (oracleReload s ((s.rules.filter fun o => !(o.rule.res == res)).map (·.rule) ++ rules.filter fun r => r.res == res), none)
     | none => (s, some "bad-op")
   | ["trace", _] => (s, none)
   | ["exit", id, "err"] =>
